@@ -2,6 +2,7 @@
 import json
 
 from .lib import cbool, clist, coq_mismatches, HarnessError
+from .c08_c09_util import coq_eval_parts, coq_eval_sharded
 
 LEVEL = "proof"
 META = {
@@ -152,7 +153,7 @@ def run_resolve(ctx):
     hx = ctx.go_build("c09")
     quick = ctx.quick()
     cmd = [hx, "resolve", "-seed", str(ctx.seed), "-n", "400" if quick else "5000",
-           "-vectors", "8" if quick else "64", "-coq", "60" if quick else "600"]
+           "-vectors", "8" if quick else "64", "-coq", "30" if quick else "600"]
     rows = ctx.jsonl(cmd, timeout=1500)
     world = [r for r in rows if r.get("kind") == "world"][0]
     summary = [r for r in rows if r.get("kind") == "rsummary"][0]
@@ -179,17 +180,10 @@ def run_resolve(ctx):
                       for r in p["runs"] if not r.get("other") and all(not e["rule"].startswith("other:") for e in r["errs"])])
         terms.append("(%s, %s)" % (c_stmts(p["tree"]), runs))
         refs.append(p)
-    import concurrent.futures as cf
-    shard = 15 if quick else 60
-    chunks = [(k, terms[k:k + shard]) for k in range(0, len(terms), shard)]
-    bad_model, bad_spec = [], []
-    with cf.ThreadPoolExecutor(max_workers=8) as ex:
-        futs = {ex.submit(coq_mismatches, ctx, "c09_res_%d" % k, header, ch, ["model_ok", "spec_ok"], len(ch)): k for k, ch in chunks}
-        for fu in cf.as_completed(futs):
-            k = futs[fu]
-            bm, bs = fu.result()
-            bad_model += [k + i for i in bm]
-            bad_spec += [k + i for i in bs]
+    return ("R", header, terms, ["model_ok", "spec_ok"]), lambda bad: resolve_finish(ctx, summary, terms, refs, bad[0], bad[1])
+
+
+def resolve_finish(ctx, summary, terms, refs, bad_model, bad_spec):
     for i in bad_spec:
         p = refs[i]
         if p["problems"]:
@@ -215,9 +209,113 @@ def run_resolve(ctx):
     }
 
 
+# ------------------------------------------------------------ recursion check
+RHEADER = """From Coq Require Import List Bool Arith.
+From SV Require Import C09.Recursion.
+Import ListNotations.
+Definition case := (bool * list event * option nat)%type.
+(* first call that does not enter: the code it was calling *)
+Fixpoint first_failure (evs : list event) (outs : list outcome) : option nat :=
+  match evs, outs with
+  | CallFn _ c :: er, o :: r => match o with Entered => first_failure er r | _ => Some c end
+  | _ :: er, _ :: r => first_failure er r
+  | _, _ => None
+  end.
+Definition until_failure (evs : list event) (outs : list outcome) : list event :=
+  (fix go evs outs := match evs, outs with
+                      | e :: er, o :: r => match o with Entered | Returned => e :: go er r | _ => [] end
+                      | _, _ => []
+                      end) evs outs.
+Fixpoint nodupb (l : list nat) : bool :=
+  match l with [] => true | x :: r => negb (existsb (Nat.eqb x) r) && nodupb r end.
+(* correspondence: the model of Call/CallInternal fails at the call the interpreter failed at (or nowhere) *)
+Definition model_ok (c : case) : bool :=
+  let '(rec, evs, obs) := c in
+  let r := run (fun _ => rec) 1000 [] evs in
+  match first_failure evs (snd r), obs with
+  | Some a, Some b => Nat.eqb a b
+  | None, None => match fst r with [] => true | _ => false end
+  | _, _ => false
+  end.
+(* oracle: with recursion off the active function frames keep pairwise distinct codes at every prefix
+   up to the failing call, and a failure happened iff the called code was active *)
+Definition spec_ok (c : case) : bool :=
+  let '(rec, evs, obs) := c in
+  let outs := snd (run (fun _ => rec) 1000 [] evs) in
+  let pre := until_failure evs outs in
+  forallb (fun k => rec || nodupb (off_codes (fun _ => rec) (fst (run (fun _ => rec) 1000 [] (firstn k pre)))))
+          (seq 0 (S (length pre)))
+  && match obs with
+     | Some code => negb rec && existsb (same_code code) (fst (run (fun _ => rec) 1000 [] pre))
+     | None => true
+     end.
+"""
+
+
+def run_rec(ctx):
+    hx = ctx.go_build("c09")
+    quick = ctx.quick()
+    rows = ctx.jsonl([hx, "rec", "-seed", str(ctx.seed), "-n", "150" if quick else "2000"], timeout=900)
+    summary = [r for r in rows if r.get("kind") == "recsummary"][0]
+    cases = [r for r in rows if r.get("kind") == "rec"]
+    ctx.log("recursion: %d call graphs x recursion off/on; %d disagree with the rule" % (summary["graphs"], summary["problems"]))
+    terms, refs = [], []
+    for c in cases:
+        if c.get("problem"):
+            kind = "reentered" if c["obs"].startswith("ok") and not c["rec"] else "spurious-failure" if c["expect"].startswith("ok") else "wrong-function"
+            edges = "closure-pair" if any(n.startswith("k0") for n in c["chain"]) else "plain"
+            ctx.finding("recursion:%s:%s:%s" % ("on" if c["rec"] else "off", kind, edges),
+                        "call chain %s with Recursion=%s: %s\n%s" % (" -> ".join(c["chain"]), c["rec"], c["problem"], c["src"]), c)
+        if c["obs"].startswith("other:"):
+            continue
+        evs = clist(["CallFn %d %d" % (e[1], e[2]) if e[0] == 0 else "CallBuiltin %d" % e[1] if e[0] == 1 else "Return" for e in c["events"]])
+        if c["obs"].startswith("recursion:"):
+            code = c["codes"].get(c["obs"].split(":", 1)[1])
+            if code is None:
+                ctx.finding("recursion:unknown-function", "recursion error names an unknown function: %s" % c["obs"], c)
+                continue
+            obs = "(Some %d)" % code
+        else:
+            obs = "None"
+        terms.append("(%s, %s, %s)" % (cbool(c["rec"]), evs, obs))
+        refs.append(c)
+    if quick:
+        terms, refs = terms[:120], refs[:120]
+    return ("S", RHEADER, terms, ["model_ok", "spec_ok"]), lambda bad: rec_finish(ctx, summary, terms, refs, bad[0], bad[1])
+
+
+def rec_finish(ctx, summary, terms, refs, bad_model, bad_spec):
+    for i in bad_spec:
+        c = refs[i]
+        if c.get("problem"):
+            continue
+        ctx.finding("recursion-spec:%s" % ("on" if c["rec"] else "off"),
+                    "call chain %s with Recursion=%s: observed %s, which contradicts the distinct-code invariant\n%s" % (" -> ".join(c["chain"]), c["rec"], c["obs"], c["src"]), c)
+    only_model = [i for i in bad_model if i not in set(bad_spec)]
+    if only_model:
+        c = refs[only_model[0]]
+        ctx.broken("correspondence:C09.Recursion", "model and interpreter differ on %d call graph(s), e.g. chain %s, Recursion=%s, observed %s" % (
+            len(only_model), c["chain"], c["rec"], c["obs"]))
+    ctx.log("recursion: %d runs in Coq (model mismatches %d, spec mismatches %d)" % (len(terms), len(bad_model), len(bad_spec)))
+    return {"recursion_graphs": summary["graphs"], "recursion_runs": summary["runs"], "recursion_distribution": summary["dist"],
+            "recursion_coq_runs": len(terms), "recursion_model_mismatches": len(bad_model),
+            "recursion_spec_mismatches": len(bad_spec), "recursion_rule_mismatches": summary["problems"],
+            "recursion_rule": "call chains of length <= 6 over <= 4 callables drawn from 4 plain functions and two closures of one definition; each definition calls the next callable directly, through a lambda, or through the key callback of sorted/min/max (seeded per definition); one third of the chains are made acyclic; every chain is run twice in sequence, with Recursion off and on"}
+
+
 def run(ctx):
     ctx.proofs()
-    cov = run_resolve(ctx)
+    pr, fr = run_resolve(ctx)
+    ps, fs = run_rec(ctx)
+    if ctx.quick():
+        bad = coq_eval_parts(ctx, "c09_all", [pr, ps])
+    else:
+        bad = coq_eval_sharded(ctx, "c09", [pr, ps], shard=80)
+    cov = fr(bad["R"])
+    rc = fs(bad["S"])
+    cov.update(rc)
+    cov["evaluations"] += rc["recursion_runs"]
+    cov["distinct_nontrivial"] += rc["recursion_runs"]
     return ctx.finish(LEVEL, cov, assumptions=[
         "the translation of syntax.File into the model's syntax (harness) is trusted; positions are (line*1000+col) of the token the resolver reports",
         "rule classes are read from the resolver's messages by substring",
